@@ -86,6 +86,7 @@ func buildServers(c *core.Ctx, swagger string, ops []specgen.ParamOp) []*built {
 
 func main() {
 	c := core.New("C03")
+	c.ReplayFallback()
 	swagger := c.BuildSwagger()
 	atoms := specgen.ParamAtoms()
 	if !c.Thorough() {
